@@ -222,6 +222,10 @@ class Incarnation:
         return await self.wait(timeout)
 
 
+# whatever asyncio's exception handler was given during the simulations of the current case (see runner.run_case_sanitized)
+ALL_LOOP_ERRORS: list[dict[str, Any]] = []
+
+
 class Sim:
     def __init__(self, *, resources: list[dict[str, Any]] | None = None, seed: int = 0, start: float = 0.0,
                  scoped: bool = True, capture_logs: bool = False, **kubekw: Any) -> None:
@@ -250,8 +254,10 @@ class Sim:
         self.runaway = False
 
     def _on_loop_error(self, loop: asyncio.AbstractEventLoop, context: dict[str, Any]) -> None:
-        self.loop_errors.append({'t': loop.time(), 'message': context.get('message'),
-                                 'exception': repr(context.get('exception'))})
+        le = {'t': loop.time(), 'message': context.get('message'), 'exception': repr(context.get('exception')),
+              'task': repr(context.get('task') or context.get('future') or context.get('handle'))[:300]}
+        self.loop_errors.append(le)
+        ALL_LOOP_ERRORS.append(le)
 
     def now(self) -> float:
         return self.loop.time()
